@@ -273,6 +273,38 @@ def stat_verdict(case, out):
     return bad
 
 
+def gen_value_cases(ctx):
+    """Values of the two deterministic initializers (coq/Random/InitValues.v): Constant / Identity
+    applied to a Tensor (tinit) and through Parameter(shape, initializer, device) (pinit), on
+    devices::Naive and devices::Eigen; EVERY element is compared bitwise with the extracted model."""
+    r, quick = ctx.rng, ctx.quick()
+    shapes = ["-:1", "1:1", "1,1:1", "2,2:1", "3,3:1", "5,5:1", "8,8:1", "9,9:1", "16,16:1", "33,33:1",     # square (scalar = {1,1})
+              "2,3:1", "3,2:1", "5:1", "1,5:1", "5,1:1", "2,1:1", "32,33:1",                                  # not square
+              "2,2,1:1", "2,2,2:1", "1,1,3:1", "2,2,1,1:1", "3,3,3,3:1", "2,2,1,1,1,1,1,2:1",                 # depth (trailing 1s are trimmed)
+              "2,2:2", "3,3:4", "5,5:2", "1,1:3", "-:5", "2,3:2", "4:3", "2,2,2:2",                           # batched
+              "0,0:1", "2,2:0", "0:1", "65536,65536:1", "1,1,1,1,1,1,1,1,2:1"]                                 # not a shape at all
+    for _ in range(40 if quick else 400):
+        k = r.random()
+        n = r.randint(1, 24 if quick else 120)
+        if k < 0.4:
+            shapes.append("%d,%d:1" % (n, n))
+        elif k < 0.55:
+            shapes.append("%d,%d:%d" % (n, n, r.randint(2, 4)))
+        elif k < 0.75:
+            shapes.append("%d,%d:%d" % (n, max(1, n + r.choice([-1, 1, 2, -n + 1])), r.choice([1, 1, 2])))
+        else:
+            shapes.append("%s:%d" % (",".join(str(r.randint(1, 5)) for _ in range(r.randint(0, 5))) or "-", r.choice([1, 1, 1, 2, 3])))
+    ks = [0x00000000, 0x80000000, 0x3f800000, 0xbf800000, 0x00000001, 0x7f7fffff, 0x7f800000, 0xff800000, 0x7fc00000, 0x40490fdb]
+    cases = []
+    for shp in shapes:
+        for dev in "NE":
+            for f in ("tinit", "pinit"):
+                cases.append("%s %s identity 0 %s" % (f, dev, shp))
+                for k in ([ks[2], r.choice(ks), r.getrandbits(32)] if quick else ks + [r.getrandbits(32)]):
+                    cases.append("%s %s constant %d %s" % (f, dev, k, shp))
+    return cases
+
+
 def gen_impl_only(ctx):
     r, quick = ctx.rng, ctx.quick()
     rng_cases, rep_cases, init_cases, stat_cases = [], [], [], []
@@ -433,7 +465,7 @@ def gumbel_close(a, b, mu, beta):
 
 def run(ctx):
     ctx.level = "proof"
-    res = ctx.prove()
+    res = ctx.prove(extra_targets=["Extract/ExtractInitValues.vo"])
     model = pv.build_ocaml("random")
     impl = pv.build_harness("plain", "rand_drv", extra="-lprimitiv_c")
     r, quick = ctx.rng, ctx.quick()
@@ -443,6 +475,21 @@ def run(ctx):
     cases = attach_oracle(impl, cases)
     pv.correspondence(ctx, "random", cases, impl, model, functional=False, oracle=val_oracle,
                       nontrivial=lambda c, out: out not in ("err", "rej", "rej rej") and not out.startswith("badcase"))
+
+    # ---- A2. VALUES of the deterministic initializers, every element, both backends ----------
+    vmodel = pv.build_ocaml("initvals")
+    vimpl = pv.build_harness("plain", "initvals_drv")
+    vcases = gen_value_cases(ctx)
+    pv.correspondence(ctx, "init-values", vcases, vimpl, vmodel, functional=True,
+                      nontrivial=lambda c, out: out != "err" and not out.startswith(("badcase", "FAIL", "other")))
+    _, vo = pv.run_lines(vmodel, vcases)
+    ctx.cov["initializer_values_vs_model"] = {
+        "cases": len(vcases), "identity_accepted": sum(1 for c, o in zip(vcases, vo) if " identity " in c and o != "err"),
+        "identity_rejected": sum(1 for c, o in zip(vcases, vo) if " identity " in c and o == "err"),
+        "constant_accepted": sum(1 for c, o in zip(vcases, vo) if " constant " in c and o != "err"),
+        "elements_compared": sum(o.count(",") + 1 for o in vo if o != "err"),
+        "what": "Constant(k) / Identity applied to a Tensor and through Parameter(shape, initializer, device) on devices::Naive and devices::Eigen: resulting shape and EVERY value (bit pattern) equal to the extracted model coq/Random/InitValues.v (theorems Properties_C17_values.v); Identity throws exactly where the model says (not a matrix, dimensions differ, invalid shape; through Parameter also every batched shape); a rejected initializer leaves the tensor untouched; the gradient of the parameter is all +0"}
+    dist["init-values"] = len(vcases)
 
     # ---- B. gumbel (libm logf vs double log: compared with a tolerance) ---------------------
     gcs = []
